@@ -3,5 +3,6 @@ import MpsVerif.Core.Validate
 import MpsVerif.Drv.Fifo
 import MpsVerif.Drv.Pipeline
 import MpsVerif.Props.C01
+import MpsVerif.Props.C03
 import MpsVerif.Props.C05
 import MpsVerif.Props.C08
